@@ -167,7 +167,7 @@ def run(ctx):
     for ap in appends:
         obj = norm_stmt(ap.args[0])
         for n in cfg.owners(ap):
-            cmps = true_compares(cfg, n, ch.node)
+            cpid_, cmps, _prot = child_facts(repo, A, cfg, n, ch.node, obj)
             key = f"children:append:{obj}:{'rec' if _in_while(ch.node, ap) else 'flat'}"
             hl = holds_le(cmps, "self.create_time()", f"{obj}.create_time()")
             if hl == "strict":
@@ -186,7 +186,7 @@ def run(ctx):
                          f"{obj}.create_time(): a recycled PID older than the caller "
                          f"would be reported as its child")
             # own-PID exclusion: the pid the child object was built from
-            cpid = _ctor_pid(cfg, n, ch.node, obj)
+            cpid = cpid_
             excl = False
             for l, op, r in cmps:
                 if op is ast.NotEq and {l, r} == {cpid, "self.pid"}:
@@ -221,8 +221,7 @@ def run(ctx):
         rec_ = _in_while(ch.node, ap)
         key = f"children:select:{'rec' if rec_ else 'flat'}"
         n0 = cfg.owners(ap)[0]
-        cpid = _ctor_pid(cfg, n0, ch.node, obj)
-        cmps = true_compares(cfg, n0, ch.node)
+        cpid, cmps, _prot = child_facts(repo, A, cfg, n0, ch.node, obj)
         fors = enclosing_fors(ap)
         why = None
         if not rec_:
@@ -427,6 +426,21 @@ def run(ctx):
              "walked is skipped: each Process(child) + create_time() sits in a try "
              "whose handler catches NoSuchProcess and continues", floor=2)
     cctors = [c for c in calls_in(ch.node) if dotted(c.func) == "Process"]
+    if not cctors:
+        # the children are built by a helper method: its summary says whether the
+        # construction and the queries are protected
+        for ap in appends:
+            obj = norm_stmt(ap.args[0])
+            n0 = cfg.owners(ap)[0]
+            _cp, _cm, prot = child_facts(repo, A, cfg, n0, ch.node, obj)
+            key = f"children:child-handler:{'rec' if _in_while(ch.node, ap) else 'flat'}"
+            if prot:
+                ctx.ok("C05.R5", key, sample="helper builds the child under except "
+                       "(NoSuchProcess, ZombieProcess)")
+            else:
+                ctx.fail("C05.R5", key, ch.file, ap.lineno, ch.qual,
+                         "a child vanishing mid-walk is no longer skipped "
+                         "(NoSuchProcess/ZombieProcess would escape children())")
     for c in cctors:
         trys = enclosing_trys(ch.node, c)
         good = False
@@ -506,7 +520,105 @@ def _in_while(fnode, target):
     return False
 
 
+_HELPERS = {}
+
+
+def _helper_summary(repo, A, h):
+    """Summary of a Process method that returns either None or a Process it
+    built from one of its parameters:  (index of that parameter, comparisons
+    known true at every non-None return with the object written `$obj`,
+    protected?)  or None.  `protected` = the construction and every query on
+    the new object sit in a try that swallows NoSuchProcess and ZombieProcess."""
+    if id(h.node) in _HELPERS:
+        return _HELPERS[id(h.node)]
+    res = None
+    cfg = A.cfg(h)
+    params = [a.arg for a in h.node.args.args if a.arg != "self"]
+    rets = [n for n in cfg.nodes if n.kind == "return" and n.stmt.value is not None
+            and not (isinstance(n.stmt.value, ast.Constant) and n.stmt.value.value is None)]
+    ok = bool(rets)
+    idx, common = None, None
+    for r in rets:
+        v = dotted(r.stmt.value)
+        if not v:
+            ok = False
+            break
+        cp = _ctor_pid_local(cfg, r, h.node, v)
+        if cp not in params:
+            ok = False
+            break
+        cm = {(l.replace(v, "$obj"), op, rr.replace(v, "$obj"))
+              for l, op, rr in true_compares(cfg, r, h.node)}
+        if idx is None:
+            idx, common = params.index(cp), cm
+        elif idx != params.index(cp):
+            ok = False
+            break
+        else:
+            common &= cm
+    if ok:
+        prot = True
+        objs = {dotted(r.stmt.value) for r in rets}
+        for c in calls_in(h.node):
+            is_ctor = dotted(c.func) == "Process"
+            is_query = isinstance(c.func, ast.Attribute) and dotted(c.func.value) in objs
+            if not (is_ctor or is_query):
+                continue
+            good = False
+            for t in enclosing_trys(h.node, c):
+                for hd in t.handlers:
+                    if handler_catches(hd, ["NoSuchProcess"]) and handler_catches(hd, ["ZombieProcess"]) \
+                            and not any(isinstance(x, ast.Raise) for b in hd.body for x in ast.walk(b)):
+                        good = True
+            prot = prot and good
+        res = (idx, common, prot)
+    _HELPERS[id(h.node)] = res
+    return res
+
+
+def child_facts(repo, A, cfg, node, fnode, objname):
+    """(pid expression the object was built from, comparisons known true about
+    it at `node`, construction protected by a handler?) - the object being built
+    in place (`obj = Process(X)`) or by a helper method of the class
+    (`obj = self._helper(X)` under `obj is not None`)."""
+    cp = _ctor_pid_local(cfg, node, fnode, objname)
+    cmps = true_compares(cfg, node, fnode)
+    if cp != "?":
+        return cp, cmps, None
+    doms = cfg.dominators()[node]
+    best = None
+    for st in ast.walk(fnode):
+        if isinstance(st, ast.Assign) and len(st.targets) == 1 and dotted(st.targets[0]) == objname \
+                and isinstance(st.value, ast.Call) and isinstance(st.value.func, ast.Attribute) \
+                and dotted(st.value.func.value) == "self":
+            for n in cfg.nodes_of(st):
+                if n in doms and (best is None or n.id > best[0].id):
+                    best = (n, st.value)
+    if best is None:
+        return "?", cmps, None
+    call = best[1]
+    nonnull = any((l, op, r) == (objname, ast.IsNot, "None") or (op is ast.IsNot and l == objname)
+                  for l, op, r in cmps) or any(
+        isinstance(e, ast.Name) and e.id == objname and pol is True
+        for e, pol, _ in cfg.guards(node)) or any(
+        f == ("isnone", objname, False) for f in facts(cfg, node))
+    hs = [f for f in repo.all_funcs("psutil") if f.cls == "Process"
+          and f.name == call.func.attr and f.parent is None]
+    if not hs or not nonnull:
+        return "?", cmps, None
+    summ = _helper_summary(repo, A, hs[0])
+    if summ is None or summ[0] >= len(call.args):
+        return "?", cmps, None
+    idx, cm, prot = summ
+    extra = [(l.replace("$obj", objname), op, r.replace("$obj", objname)) for l, op, r in cm]
+    return norm_stmt(call.args[idx]), cmps + extra, prot
+
+
 def _ctor_pid(cfg, node, fnode, objname):
+    return _ctor_pid_local(cfg, node, fnode, objname)
+
+
+def _ctor_pid_local(cfg, node, fnode, objname):
     """Text of the pid expression X in the `objname = Process(X)` that
     dominates `node` most closely."""
     best = None
